@@ -335,6 +335,11 @@ type rawPeer struct {
 	co     *coord
 	delay  time.Duration
 	done   chan struct{} // mcast2: closed when the racing SETUP was answered or failed
+	seed   uint64
+	frames atomic.Int64 // interleaved frames / UDP packets received
+	udp    [2]net.PacketConn
+	flow   string // non-empty: packets did not flow when they had to
+	ops    []string
 	conn   net.Conn
 	br     *bufio.Reader
 	notes  []string
@@ -342,12 +347,36 @@ type rawPeer struct {
 }
 
 func (r *rawPeer) request(method, url string, cseq int, extra string) (map[string]string, error) {
-	req := fmt.Sprintf("%s %s RTSP/1.0\r\nCSeq: %d\r\n%s\r\n", method, url, cseq, extra)
+	return r.requestBody(method, url, cseq, extra, "")
+}
+
+func (r *rawPeer) requestBody(method, url string, cseq int, extra, body string) (map[string]string, error) {
+	if body != "" {
+		extra += fmt.Sprintf("Content-Length: %d\r\n", len(body))
+	}
+	req := fmt.Sprintf("%s %s RTSP/1.0\r\nCSeq: %d\r\n%s\r\n%s", method, url, cseq, extra, body)
 	r.conn.SetDeadline(time.Now().Add(3 * time.Second))
 	if _, err := io.WriteString(r.conn, req); err != nil {
 		return nil, err
 	}
 	hdr := map[string]string{}
+	for { // interleaved frames may precede the response
+		b, perr := r.br.Peek(1)
+		if perr != nil {
+			return nil, perr
+		}
+		if b[0] != '$' {
+			break
+		}
+		fh := make([]byte, 4)
+		if _, perr = io.ReadFull(r.br, fh); perr != nil {
+			return nil, perr
+		}
+		if _, perr = io.CopyN(io.Discard, r.br, int64(fh[2])<<8|int64(fh[3])); perr != nil {
+			return nil, perr
+		}
+		r.frames.Add(1)
+	}
 	line, err := r.br.ReadString('\n')
 	if err != nil {
 		return nil, err
@@ -428,6 +457,8 @@ func (r *rawPeer) run() error {
 			_, _ = r.request("SETUP", base+"/trackID=1", 3, "Transport: RTP/AVP;multicast\r\nSession: "+sid+"\r\n")
 		}()
 		return nil
+	case "redun-play-tcp", "redun-play-udp", "redun-record-tcp":
+		return r.redundant(base)
 	case "stall":
 		if _, err = r.request("OPTIONS", base, 1, ""); err != nil {
 			return err
@@ -457,6 +488,66 @@ func (r *rawPeer) run() error {
 	return fmt.Errorf("unknown raw mode %q", r.spec.Mode)
 }
 
+const rawSDP = "v=0\r\no=- 0 0 IN IP4 127.0.0.1\r\ns=Stream\r\nc=IN IP4 0.0.0.0\r\nt=0 0\r\n" +
+	"m=video 0 RTP/AVP 96\r\na=control:trackID=0\r\na=rtpmap:96 H264/90000\r\na=fmtp:96 packetization-mode=1\r\n" +
+	"m=audio 0 RTP/AVP 0\r\na=control:trackID=1\r\n"
+
+// drain counts the packets the server sends (TCP: interleaved frames on the connection; UDP: the RTP socket).
+func (r *rawPeer) drainTCP() {
+	for {
+		b, err := r.br.Peek(1)
+		if err != nil {
+			return
+		}
+		if b[0] == '$' {
+			fh := make([]byte, 4)
+			if _, err = io.ReadFull(r.br, fh); err != nil {
+				return
+			}
+			if _, err = io.CopyN(io.Discard, r.br, int64(fh[2])<<8|int64(fh[3])); err != nil {
+				return
+			}
+			r.frames.Add(1)
+			continue
+		}
+		if _, err = r.br.ReadString('\n'); err != nil {
+			return
+		}
+	}
+}
+
+func (r *rawPeer) waitFlow(what string) {
+	start := r.frames.Load()
+	deadline := time.Now().Add(1500 * time.Millisecond)
+	for time.Now().Before(deadline) {
+		if r.frames.Load() >= start+3 {
+			return
+		}
+		if r.udp[0] == nil {
+			// TCP: frames are counted while reading; poll the connection
+			r.conn.SetReadDeadline(time.Now().Add(20 * time.Millisecond))
+			b, err := r.br.Peek(1)
+			if err == nil && b[0] == '$' {
+				fh := make([]byte, 4)
+				if _, err = io.ReadFull(r.br, fh); err == nil {
+					if _, err = io.CopyN(io.Discard, r.br, int64(fh[2])<<8|int64(fh[3])); err == nil {
+						r.frames.Add(1)
+					}
+				}
+			} else if err == nil {
+				r.br.ReadString('\n')
+			} else if ne, ok := err.(net.Error); !ok || !ne.Timeout() {
+				break
+			}
+		} else {
+			time.Sleep(2 * time.Millisecond)
+		}
+	}
+	if r.frames.Load() < start+3 {
+		r.flow = fmt.Sprintf("%s: %d packets within 1.5 s after [%s]", what, r.frames.Load()-start, strings.Join(r.ops, " "))
+	}
+}
+
 func (r *rawPeer) close() {
 	if r.done != nil {
 		select {
@@ -466,5 +557,10 @@ func (r *rawPeer) close() {
 	}
 	if r.conn != nil {
 		r.conn.Close()
+	}
+	for _, pc := range r.udp {
+		if pc != nil {
+			pc.Close()
+		}
 	}
 }
